@@ -393,8 +393,9 @@ CHECKS = {
              "sending). Operations: Start, second Start while active, 1-4 concurrent Stops with generated "
              "staggering (0-3 ms), Stop issued after / at once / 0.1-2 ms after the source was told to end itself, a second Stop round on the stopped "
              "source, queued requests, START/STOP writing, raw-data archive requests of 50 / 500 / 10^6 samples (the last never completes), a write START that fails in its last step, channel-count "
-             "changes between runs, for the UDP sources datagrams that are not data packets (3 bytes, text, impossible header length) sent to the "
-             "receiving port of a running source; every history ends with one more Configure+Start+Stop. non-trivial = >= 2 successful Starts on the object AND a "
+             "changes between runs, for the UDP sources datagrams that are not data packets (empty, 3 bytes, text, impossible header length, only the 16 fixed header bytes) or "
+             "that are well-formed packets of a channel group unknown to the source, sent to the receiving port of a running source, and unwrap "
+             "options that cannot work (no reset interval, no rescaling: refused by Configure or failing the Start cleanly); every history ends with one more Configure+Start+Stop. non-trivial = >= 2 successful Starts on the object AND a "
              "concurrent-Stop round or a Stop racing self-termination; distinct = FNV-64 of the case",
         level_text="Start must succeed exactly when the source is inactive (and no failure was injected), leave it Active and deliver a block within "
                    "8 s; a failed Start must leave it Inactive; every Start/Stop call must return (blocked at the same frame after 10 s and again 1.5 s "
